@@ -253,6 +253,30 @@ def chain_rule(ctx, col):
         "np.cumsum([0] + [len(ts) for ts in self.trees])", "np.cumsum([0] + [len(ts) for ts in trees])")
     col.check(ok, "R-CHAIN", C.qualname, init_d.loc(), "prefix sums start at 0 and add the members' lengths in order", str(src.get("self.cumsum")),
               f"cumsum is `{src.get('self.cumsum')}`", stmt="cumsum")
+    # the prefix sums and the member list describe the same sequence: the lengths are taken from the very list that is kept in self.trees
+    col.rule("R-CHAINSRC", "the prefix sums are computed from the list that is stored as the members: the comprehension under np.cumsum iterates over self.trees (or the name self.trees is bound to), "
+             "not over another list (a member list that was flattened / filtered separately has other lengths at the same positions)", floor=1)
+    cs = [n for n in own_nodes(init_d) if isinstance(n, ast.Assign) and norm_src(n.targets[0]) == "self.cumsum"]
+    tr = [n for n in own_nodes(init_d) if isinstance(n, ast.Assign) and norm_src(n.targets[0]) == "self.trees"]
+    it = None
+    if len(cs) == 1:
+        for g_ in ast.walk(cs[0].value):
+            if isinstance(g_, ast.comprehension):
+                it = g_.iter
+    if it is None or len(tr) != 1:
+        col.unresolved("R-CHAINSRC", C.qualname, init_d.loc(), "lengths are those of the stored members", "no single self.cumsum / self.trees assignment with a comprehension", stmt="chainsrc")
+    else:
+        tv = tr[0].value
+        same = norm_src(it) == "self.trees" or (isinstance(it, ast.Name) and (norm_src(tv) in (it.id, f"list({it.id})", f"tuple({it.id})")))
+        grown = [c_ for c_ in own_nodes(init_d) if isinstance(c_, ast.Call) and isinstance(c_.func, ast.Attribute) and c_.func.attr in ("append", "extend", "insert") and norm_src(c_.func.value) == "self.trees"]
+        if same and not (isinstance(it, ast.Name) and grown):
+            col.ok("R-CHAINSRC", C.qualname, init_d.loc(cs[0]), "lengths are those of the stored members", f"cumsum over `{norm_src(it)}`, members `{norm_src(tv)}`", stmt="chainsrc")
+        elif isinstance(it, ast.Name) and isinstance(tv, (ast.List, ast.Call)) and grown and norm_src(tv) in ("[]", "list()"):
+            col.bad("R-CHAINSRC", C.qualname, init_d.loc(cs[0]), "lengths are those of the stored members",
+                    f"self.trees is built separately (`{norm_src(grown[0])[:60]}`) while the prefix sums run over `{it.id}`: as soon as the two lists differ (a nested chain that is flattened, a member "
+                    f"that is skipped) position k of the sums no longer belongs to member k -- lookups land in the wrong member or raise", stmt="chainsrc", definite=True)
+        else:
+            col.unresolved("R-CHAINSRC", C.qualname, init_d.loc(cs[0]), "lengths are those of the stored members", f"cumsum over `{norm_src(it)}`, members `{norm_src(tv)}`: relation not recognised", stmt="chainsrc")
     ln = C.lookup_method("__len__")
     col.check(norm_src(ln.node.body[-1]) == "return self.cumsum[-1].item()", "R-CHAIN", C.qualname, ln.loc(), "total length is the last prefix sum",
               "", "len() is not cumsum[-1]", stmt="len")
